@@ -78,6 +78,14 @@ CHECKS["C13"] = dict(
     ref="C13",
 )
 
+CHECKS["C08"] = dict(
+    technique="hand-written Coq model of get_source_lines/is_ignored_via_comment (regex as leftmost search over code points) tied by vm_compute correspondence; Coq proofs for all lines (appended `# noqa` / `# noqa: codes` suppress all / exactly the listed codes; locality; hash-free prefixes irrelevant); metamorphic runs through run_refurb",
+    category="proof",
+    text="Lib/Noqa.v models line splitting (universal newlines, LF only), rstrip, the `# noqa(: [^quotes]*)?$` search and the code-list tokenisation over code points; it is compared with the real is_ignored_via_comment on ~3500 (file, line, code) triples per quick run, including FF/VT/FS/GS/RS/NEL/LS/PS inside literals, CRLF/CR, BOM, quotes, earlier `# noqa` text and every comment style. Proved for every line L without a hash and every alphanumeric code list of any length: ignored (L ++ '  # noqa') c = true and ignored (L ++ '  # noqa: ' ++ join ', ' cs) c = (c in cs); suppression depends on the named physical line only. The property's metamorphic relation runs on real lint runs: adding comments to subsets of diagnosed lines removes exactly the named (line, code) pairs.",
+    note="Trusted: Coq kernel; model-code correspondence for Lib/Noqa.v (in particular the regex modelling); Python's physical-line definition.",
+    ref="C08",
+)
+
 NOT_APPLICABLE = {}
 
 
